@@ -22,7 +22,8 @@ RULE = ('family = one generated pipeline containing at least one random stage '
         'variants repeat one order; ordered is False exactly with a reshuffling stage; '
         'vars() of every stage and of its copy agree. Non-trivial = an adversary step '
         'fired between two variant steps; distinct = distinct (pipeline, op list).')
-PROBES = ['adversary_step_inside_an_epoch', 'prefetch_pool_variant_ran',
+PROBES = ['frozen_copy_of_live_dataset', 'one_generator_shared_by_stages',
+          'adversary_step_inside_an_epoch', 'prefetch_pool_variant_ran',
           'prefetch_single_variant_ran', 'random_stage_below_other_stages']
 BUDGET = {
     'quick': {'families': 900, 'wall_cap': 240, 'shrink_s': 12},
@@ -83,11 +84,18 @@ def gen_desc(rng):
 
 def gen(rng, tier, index):
     desc, a = gen_desc(rng)
+    if sum(1 for s in desc['stages'] if s['op'] in RANDOM_OPS + ('shuffle',)) >= 2 \
+            and rng.random() < 0.5 and not any(s['op'] == 'apply' for s in desc['stages']):
+        # one generator object handed to every random stage of the build
+        desc['shared_rng'] = rng.randrange(1 << 16)
     epochs = rng.choice([2, 2, 3])
     per_epoch = any(s['op'] in RANDOM_OPS for s in desc['stages'])
     variants = ['A', 'B', 'C']
     if not any(s['op'] == 'local_shuffle' for s in desc['stages']):
         variants.append('F')
+        if per_epoch:
+            # a frozen copy taken from a build that keeps being iterated
+            variants += ['G', 'FG']
     pf = {'b1': rng.randrange(1, 4), 'w': rng.randrange(2, 4)}
     pf['bw'] = pf['w'] + rng.randrange(0, 3)
     variants.append('P1')
@@ -225,9 +233,15 @@ def run(case):
         with warnings.catch_warnings():
             warnings.simplefilter('ignore')
             vs = {}
+            gbase = None
             for name in case['variants']:
+                if name == 'FG':
+                    vs[name] = _Variant(name, gbase.copy(freeze=True), E)
+                    continue
                 base = W.build(desc)
-                if name in ('A', 'B'):
+                if name == 'G':
+                    gbase = base
+                if name in ('A', 'B', 'G'):
                     ds = base
                 elif name == 'C':
                     ds = base.copy()
@@ -312,7 +326,7 @@ def run(case):
             if not any(v.error for v in vs.values()):
                 ref = vs['A'].outs
                 for name in case['variants']:
-                    if name in ('A', 'F'):
+                    if name in ('A', 'F', 'G', 'FG'):
                         continue
                     for e in range(E):
                         if vs[name].outs[e] != ref[e]:
@@ -325,13 +339,21 @@ def run(case):
                                     [list(W.src_ids(x)) for x in vs[name].outs[e]],
                                     [list(W.src_ids(x)) for x in ref[e]])))
                             break
-                if 'F' in vs:
-                    f = vs['F'].outs
+                for fname in ('F', 'FG'):
+                    if fname not in vs:
+                        continue
+                    f = vs[fname].outs
                     if any(f[e] != f[0] for e in range(E)):
                         violations.append(hist.viol(
-                            'frozen_copy_not_frozen', 'frozen_copy_not_frozen:%s' % tag,
-                            'copy(freeze=True) iterated in different orders: %s'
-                            % [[list(W.src_ids(x)) for x in ep] for ep in f]))
+                            'frozen_copy_not_frozen', 'frozen_copy_not_frozen:%s:%s' % (fname, tag),
+                            'copy(freeze=True) %s iterated in different orders: %s'
+                            % ('of a dataset that kept being iterated' if fname == 'FG' else '',
+                               [[list(W.src_ids(x)) for x in ep] for ep in f])))
+                        break
+                if 'FG' in vs:
+                    probes['frozen_copy_of_live_dataset'] = 1
+                if desc.get('shared_rng') is not None:
+                    probes['one_generator_shared_by_stages'] = 1
                 if not per_epoch and any(ref[e] != ref[0] for e in range(E)):
                     violations.append(hist.viol(
                         'one_time_shuffle_not_fixed', 'one_time_shuffle_not_fixed:%s' % tag,
